@@ -795,7 +795,8 @@ static void run_one(void)
         /* the same arrays with values near the top of the double range (0, 5.6e307, 1.1e308, 1.7e308): sorting, copying,
          * the median and the five-number summary are order statistics and must still be right */
         for (int i = 0; i < n; i++) {
-            xs[i] *= 5.6e307;
+            /* huge=2: both signs (-1.65e308, -5.5e307, 5.5e307, 1.65e308): differences overflow, too */
+            xs[i] = o_huge == 2 ? (xs[i] - 1.5) * 1.1e308 : xs[i] * 5.6e307;
         }
         check_dataset();
         return;
